@@ -513,6 +513,22 @@ func (s *session) writeMemory(line string) {
 		s.event(a, "dialogue", "accepted")
 		s.w("%s\r\nBuilding configuration...\r\nCompressed configuration from 10194 bytes to 5372 bytes[OK]\r\n%s", a, s.prompt())
 		s.event(line, "save", "accepted")
+	case "nvram-confirm-too-large", "nvram-confirm-open-failed":
+		// The confirmation is asked, then the save fails all the same.
+		s.w("Warning: Attempting to overwrite an NVRAM configuration previously written\r\n" +
+			"by a different version of the system image.\r\n" +
+			"Overwrite the previous NVRAM configuration?[confirm]")
+		a := s.readLine()
+		s.event(a, "dialogue", "accepted")
+		s.event(line, "save", "rejected:"+sp.WriteMem)
+		if sp.WriteMem == "nvram-confirm-too-large" {
+			s.w("%s\r\nBuilding configuration...\r\n%% Compressed configuration is too large for nvram\r\n%s", a, s.prompt())
+		} else {
+			s.w("%s\r\nstartup-config file open failed (Device or resource busy)\r\n%s", a, s.prompt())
+		}
+	case "busy-always":
+		s.event(line, "save", "rejected:busy")
+		s.w("startup-config file open failed (Device or resource busy)\r\n%s", s.prompt())
 	case "busy-once":
 		if !s.busyDone {
 			s.busyDone = true
